@@ -15,6 +15,7 @@ from liquid2 import Tag
 from liquid2 import TagToken
 from liquid2 import TokenStream
 from liquid2.builtin import Identifier
+from liquid2.builtin import identifier_str
 from liquid2.builtin import parse_parameters
 from liquid2.builtin import parse_positional_and_keyword_arguments
 from liquid2.builtin import parse_string_or_identifier
@@ -71,8 +72,9 @@ class MacroNode(Node):
     def __str__(self) -> str:
         assert isinstance(self.token, TagToken)
         args = " " + ", ".join(str(p) for p in self.args.values()) if self.args else ""
+        name = identifier_str(self.name)
         return (
-            f"{{%{self.token.wc[0]} macro {self.name}{args} {self.token.wc[1]}%}}"
+            f"{{%{self.token.wc[0]} macro {name}{args} {self.token.wc[1]}%}}"
             f"{self.block}"
             f"{{%{self.end_tag_token.wc[0]} endmacro {self.end_tag_token.wc[1]}%}}"
         )
@@ -152,7 +154,8 @@ class CallNode(Node):
         args = " " + ", ".join(
             [*(str(arg) for arg in self.args), *(str(arg) for arg in self.kwargs)]
         )
-        return f"{{%{self.token.wc[0]} call {self.name}{args} {self.token.wc[1]}%}}"
+        name = identifier_str(self.name)
+        return f"{{%{self.token.wc[0]} call {name}{args} {self.token.wc[1]}%}}"
 
     def render_to_output(self, context: RenderContext, buffer: TextIO) -> int:
         """Render the node to the output buffer."""
